@@ -46,7 +46,7 @@ func PublicAPI(t *testing.T, a *API) {
 		t.Fatalf("harness: unknown scheme %q", name)
 	}
 	r.Set("parameter_set", name)
-	r.Rule("keys: xi in SEEDS(32) via NewKeyFromSeed and Scheme.DeriveKey; messages of length {0,1,65,200} x ctx {nil,\"\",\"a\",255 x FF} (ML-DSA): SignTo, Scheme.Sign, PrivateKey.Sign bytes = reference Sign_internal on M' with rnd = 0; " +
+	r.Rule("keys: xi in SEEDS(32) and two counter seeds whose ExpandA stream contains a candidate == q, via NewKeyFromSeed and Scheme.DeriveKey; messages of length {0,1,65,200} x ctx {nil,\"\",\"a\",255 x FF} (ML-DSA): SignTo, Scheme.Sign, PrivateKey.Sign bytes = reference Sign_internal on M' with rnd = 0; " +
 		"verdict matrix: every signature against every (message, ctx) pair = reference verdict; ctx of 256 bytes refused; hedged signatures (crypto/rand) judged by the reference verifier; truncated / extended signatures; key (un)marshalling lengths; " +
 		"distinct = (entry point, key, message, ctx)")
 	key := func(fn, class string) string { return "C04|" + name + "|" + fn + "|" + class }
@@ -58,6 +58,12 @@ func PublicAPI(t *testing.T, a *API) {
 		r.Violation(key("Scheme", "supports-context"), "ctxflag", "SupportsContext does not match the specification family", nil)
 	}
 	seeds := verifmc.SeedsN(32, r.Seed(), r.Pick(3, 5))
+	for _, ks := range BoundaryKeySeeds(p, 2) { // ExpandA consumes a candidate == q (boundary.go)
+		ks := ks
+		seeds = append(seeds, ks.Seed[:])
+		r.Count("boundary_key_seeds", 1)
+	}
+	r.RequireCounter("boundary_key_seeds", 2)
 	msgLens := []int{0, 1, 65, 200}
 	ctxs := [][]byte{nil, {}, []byte("a"), bytes.Repeat([]byte{0xff}, 255)}
 	if !p.MLDSA {
